@@ -170,6 +170,15 @@ def conventions(name, st, key, point):
                 break
         if args is not None:
             variants.append(("positional arguments", args, {}))
+    # the command's own build_cdb() given the decoded fields of its CDB plus a keyword that is no field, in front (ignored as documented)
+    try:
+        inst = cls(op, **kw)
+        fields = cls.unmarshall_cdb(bytearray(ref))
+        again = bytes(inst.build_cdb(**dict({"zz_not_a_field": 0}, **fields)))
+        if again != ref:
+            out.append(("convention/%s" % name, "%s(%r).build_cdb(zz_not_a_field=0, **decoded fields) gives %s, the command's CDB is %s" % (name, point, again.hex(), ref.hex())))
+    except Exception as e:   # noqa: BLE001
+        out.append(("convention/%s" % name, "%s(%r).build_cdb(zz_not_a_field=0, **decoded fields) raised %s: %s" % (name, point, type(e).__name__, e)))
     for label, a, k in variants:
         try:
             got = bytes(cls(op, *a, **k).cdb)
